@@ -55,6 +55,17 @@ def line_counter_rules(chk, P):
             gd = panrules.guards_at(P, g, inc[0][0])
             good = any(x[0] == "Eq" and x[1] == "some!(Iterator::next(self.iter)).kind" and x[2] == "TokenKind::Eol{}" for x in gd)
         chk.require(good, "GUARD", "GUARD:get:line+1-iff-consumed-Eol", "self.line += 1 exactly on the edge tok.kind == Eol", "Parser::get updates line as %s" % inc)
+        # exact table: every feasible entry->return path, the facts it decides, how often it bumps the line
+        incb = set(bb for bb, _ in inc)
+        rows = set()
+        for pi in tab.paths(P, g, to_return_only=True):
+            rows.add((tab.path_facts(pi), sum(1 for bb in pi.path if bb in incb), ordrules.ret_shape(pi)))
+        NX, K, E = "variant(Iterator::next(self.iter))", "some!(Iterator::next(self.iter)).kind", "TokenKind::Eol{}"
+        a, b_ = sorted([K, E])
+        want = {(frozenset([(NX, ("None",))]), 0, "Err"),
+                (frozenset([(NX, ("Some",)), ("Eq(%s, %s)" % (a, b_), True)]), 1, "Ok"),
+                (frozenset([(NX, ("Some",)), ("Ne(%s, %s)" % (a, b_), True)]), 0, "Ok")}
+        chk.require(rows == want, "TAB", "TAB:get:exact-line-table", "None -> Err, no bump; Some(Eol) -> one bump; Some(other) -> no bump; no other condition", "Parser::get behaves as %s" % sorted(rows, key=str))
     h = P.body("parser::HeaderParser::parse")
     if chk.anchor("HeaderParser::parse", h):
         inc = increments(h, "parser::HeaderParser")
@@ -64,6 +75,28 @@ def line_counter_rules(chk, P):
             others = [a for a in pan.arm_context(h, inc[0][0], P.cfg(h)) if "cond" in a]
             good = bool(arms) and arms[0]["variants"] == ["Eol"] and not others
         chk.require(good, "GUARD", "GUARD:header:line+1-on-every-Eol", "self.line += 1 in the Eol arm, unconditionally (blank lines before the header count)", "HeaderParser::parse updates line as %s" % inc)
+        hb = [bb for bb, t in h.calls() if callee_name(t)[0].endswith("Iterator>::next")]
+        if chk.anchor("header loop", len(hb) == 1):
+            incb = set(bb for bb, _ in inc)
+            rows = set()
+            for pi in tab.paths(P, h, start=hb[0]):
+                last = pi.path[-1]
+                tt = h.term(last)["t"]
+                if tt == "unreachable":
+                    continue
+                how = "back" if pi.back is not None else ("return" if tt == "return" else "panic")
+                tok = None
+                for d in pi.decisions():
+                    if d[0] == "variant" and d[1] in ("Iterator::next(self.iter)", "some!(Iterator::next(self.iter))", "ok!(some!(Iterator::next(self.iter)))"):
+                        tok = d[2]
+                other = frozenset(f for f in tab.path_facts(pi) if not f[0].startswith("variant("))
+                rows.add((tok, other, sum(1 for bb in pi.path if bb in incb), how))
+            EMP = "Vec::is_empty(Vec::new())"
+            want = {(("None",), frozenset(), 0, "return"), (("Err",), frozenset(), 0, "panic"), (("WS",), frozenset(), 0, "panic"),
+                    (("SignalName",), frozenset(), 0, "back"), (("SignalName",), frozenset(), 0, "return"),
+                    (("Eol",), frozenset([(EMP, True)]), 1, "back"), (("Eol",), frozenset([(EMP, False)]), 1, "return")}
+            chk.require(rows == want, "TAB", "TAB:header:exact-line-table", "per token of the header loop: Eol bumps the line once (and ends the header iff a name was seen); SignalName/None never bump; no other condition",
+                        "HeaderParser::parse's loop behaves as %s" % sorted(rows, key=str))
     # peek never consumes: primitives verified by TKA (who touches iter)
     L = panrules.Lemmas(P, chk)
     T = L.tka()
